@@ -1,7 +1,10 @@
 #!/usr/bin/env python3
 """Regenerates /verif/MANIFEST.json from the table below (kept in one place so
 that the manifest stays valid and consistent while checks are added)."""
-import json, os
+import json, os, sys
+
+sys.path.insert(0, os.path.dirname(os.path.abspath(__file__)))
+import stages
 
 VERIF = os.path.dirname(os.path.dirname(os.path.abspath(__file__)))
 
@@ -99,6 +102,15 @@ def main():
         pid = p["id"]
         if pid in CLAIMED:
             tech, text, note, ref = CLAIMED[pid]
+            san = []
+            if pid in stages.MIRI_PROPS:
+                san.append("a workload sized for the interpreter under Miri (16 processes)")
+            if pid in stages.MIRI_SAMPLED_PROPS:
+                san.append("a uniform sample of the quick workload, stratified by sub-monitor (%d cases), replayed with its oracles under Miri" % stages.MIRI_SAMPLE_TOTAL.get(pid, stages.MIRI_SAMPLE_DEFAULT))
+            if pid in stages.ASAN_PROPS:
+                san.append("the whole quick workload under AddressSanitizer with leak detection")
+            if san:
+                note = note + " Thorough tier adds: " + "; ".join(san) + " - undefined behaviour, leaks and oracle violations seen there are violations, tool failures are inconclusive (DESIGN.md 11.6)."
             checks.append({
                 "property_id": pid,
                 "quick_cmd": "./check %s quick" % pid,
